@@ -21,14 +21,14 @@ SendEv == {"Send", "SendL", "SendM", "SendNow", "SendNowBig", "SendNow1", "SendN
 \* delivery and waits for room in the channel) and is then frozen; while it is frozen the session engine processes a grant of the receiver
 \* (ParkF) or a settlement of the oldest delivery still unsettled (ParkD); then the frozen send is dropped.  No generous grant follows: the
 \* sends of the suffix live on the credit granted while the send was parked.
-ParkEv == {"SB", "ParkF", "ParkD", "Disp", "Yield"}
+ParkEv == {"SB", "ParkF", "ParkD", "ParkM", "Disp", "Yield"}
 Cnt(sc, S) == Len(SelectSeq(sc, LAMBDA e : e \in S))
 VARIABLES script, half
 Init == script = <<>> /\ half = FALSE
 Next == /\ Len(script) < Depth
         /\ \E e \in (IF Part = "recv" THEN RecvEv ELSE IF Part = "mix" THEN MixEv ELSE IF Part = "park" THEN ParkEv ELSE SendEv) :
              /\ (e = "T2b" => half) /\ (e \in {"T1", "T2a"} => ~half)
-             /\ (Part = "park" /\ e \in {"Disp", "ParkD"} => Cnt(script, {"Disp", "ParkD"}) < Cnt(script, {"SB", "ParkF", "ParkD"}))
+             /\ (Part = "park" /\ e \in {"Disp", "ParkD"} => Cnt(script, {"Disp", "ParkD"}) < Cnt(script, {"SB", "ParkF", "ParkD", "ParkM"}))
              /\ script' = Append(script, e) /\ half' = (IF e = "T2a" THEN TRUE ELSE IF e = "T2b" THEN FALSE ELSE half)
 Spec == Init /\ [][Next]_<<script, half>>
 
@@ -91,6 +91,8 @@ PBody(sc, i, m, d) == IF i > Len(sc) THEN <<>> ELSE LET e == sc[i] IN
   CASE e = "SB" -> <<[e |-> "ASend", l |-> "L1", m |-> m, len |-> 20, batchable |-> TRUE]>> \o PBody(sc, i + 1, m + 1, d)
     [] e = "ParkF" -> <<Park(m), [Grant(4) EXCEPT !.nosettle = TRUE], [e |-> "Yield", n |-> 12, nosettle |-> TRUE], [e |-> "ACancel", l |-> "L1"]>> \o PBody(sc, i + 1, m + 2, d)
     [] e = "ParkD" -> <<Park(m), DispOne(d, TRUE), [e |-> "Yield", n |-> 12, nosettle |-> TRUE], [e |-> "ACancel", l |-> "L1"]>> \o PBody(sc, i + 1, m + 2, d + 1)
+    \* a send of three link-level frames dropped between two of them: its delivery has started, its credit is spent
+    [] e = "ParkM" -> <<[e |-> "ASend", l |-> "L1", m |-> m, len |-> 400, nosettle |-> TRUE], [e |-> "Yield", n |-> 2, nosettle |-> TRUE], [e |-> "ACancel", l |-> "L1"]>> \o PBody(sc, i + 1, m + 1, d)
     [] e = "Disp" -> <<DispOne(d, FALSE)>> \o PBody(sc, i + 1, m, d + 1)
     [] OTHER -> <<[e |-> "Yield", n |-> 5]>> \o PBody(sc, i + 1, m, d)
 PSuffix == << [e |-> "ASend", l |-> "L1", m |-> 90, len |-> 20, batchable |-> TRUE], [e |-> "ASend", l |-> "L1", m |-> 91, len |-> 400, batchable |-> TRUE],
